@@ -246,13 +246,38 @@ fn depth_ladder() -> Vec<Case> {
     v
 }
 
+/// G8 (enumerated): multi-byte text placed before column-sensitive constructs on the same line -
+/// loud comments (re-indented from their start column), nested blocks, error sites. A character
+/// column used as a byte offset, or the reverse, shows here. Both styles, SCSS and plain CSS.
+fn non_ascii_layouts() -> Vec<Case> {
+    let pre = [
+        "a { b: \"日本語\"; } ", "/* 注釈です */ ", "a{b:\"ééé\"}", "\u{feff}", "x { y: \"😀\" } ", "é { a: b } ",
+        "@media screen { é { a: b } } ", "$v: \"ü\"; ", "/*! ©é */", ".日本 > .語 { a: b }",
+    ];
+    let follow = [
+        "/* end */", "/*! end */", "/* a\n   b */", "a { /* c */ b: c; /* d\n e */ }", "@foo é { /* x */ }",
+        "b { c: d } /* 終 */ /* end\n  end */", "a { b: 1 + ; }", "#{é} { a: b } /* z */",
+    ];
+    let mut v = vec![];
+    for (i, p) in pre.iter().enumerate() {
+        for (j, f) in follow.iter().enumerate() {
+            for style in [Style::Expanded, Style::Compressed] {
+                let syntax = if p.starts_with('$') || f.contains("#{") || f.contains("1 + ") || (i + j) % 3 != 0 { Syntax::Scss } else { Syntax::Css };
+                let cfg = Cfg { syntax, style, quiet: true, unicode: (i + j) % 2 == 0, charset: j % 2 == 0, mode: EntryMode::FromString };
+                v.push(mk("G8-non-ascii-layout", format!("{}{}\n", p, f), cfg));
+            }
+        }
+    }
+    v
+}
+
 impl Prop for C01 {
     type Case = Case;
     fn id(&self) -> &'static str {
         "C01"
     }
     fn rule(&self) -> String {
-        "cases = (text, syntax, style, quiet, unicode, charset, entry mode); classes: G1 corpus under all three syntaxes, G2 corpus + 1..4 token/char mutations (EOF truncations weighted up), G3 generated programs (value-heavy sheets, rule trees, SassScript programs; SCSS and indented; 0..2 mutations; unmutated ones are bounded by construction, so an evaluation timeout is a violation), G4 token soup from a Sass dictionary, G5 every built-in (global and sass:*) called with 0..4 well/ill-typed arguments, G6 raw bytes incl. invalid UTF-8 through from_path/@import/@use/@forward, G7 nesting-depth ladder 16..8192 (enumerated). Bracket depth is capped at 64 for G1-G6 (deeper = excluded, counted). Non-trivial = at least 3 tokens, not byte-identical to a corpus entry, and compiles or fails at a location other than 0:0; distinct = distinct (text, syntax, mode).".into()
+        "cases = (text, syntax, style, quiet, unicode, charset, entry mode); classes: G1 corpus under all three syntaxes, G2 corpus + 1..4 token/char mutations (EOF truncations weighted up), G3 generated programs (value-heavy sheets, rule trees, SassScript programs; SCSS and indented; 0..2 mutations; unmutated ones are bounded by construction, so an evaluation timeout is a violation), G4 token soup from a Sass dictionary, G5 every built-in (global and sass:*) called with 0..4 well/ill-typed arguments, G6 raw bytes incl. invalid UTF-8 through from_path/@import/@use/@forward, G7 nesting-depth ladder 16..8192 (enumerated), G8 multi-byte text before loud comments / blocks / error sites on the same line (enumerated, 160 sheets). Bracket depth is capped at 64 for G1-G6 (deeper = excluded, counted). Non-trivial = at least 3 tokens, not byte-identical to a corpus entry, and compiles or fails at a location other than 0:0; distinct = distinct (text, syntax, mode).".into()
     }
     fn assumptions(&self) -> Vec<String> {
         vec![
@@ -362,7 +387,9 @@ impl Prop for C01 {
         Some((s, tier.pick(60_000, 2_000_000)))
     }
     fn enumerate(&self, _tier: Tier) -> Vec<Case> {
-        depth_ladder()
+        let mut v = depth_ladder();
+        v.extend(non_ascii_layouts());
+        v
     }
     fn check(&self, case: &Case, cx: &mut Ctx) -> Verdict {
         let text_lossy = String::from_utf8_lossy(&case.text.to_vec()).into_owned();
